@@ -316,12 +316,12 @@ pub fn run_c18(ctx: &mut Ctx) {
     let lim = GenLimits { er_max: 10, ..Default::default() };
     let schedule: Vec<(&str, u64)> = vec![
         ("all3", 512),
-        ("er", if q { 4_000 } else { 80_000 }),
-        ("lattice", if q { 3_000 } else { 60_000 }),
-        ("dense", if q { 1_000 } else { 20_000 }),
-        ("union", if q { 1_200 } else { 25_000 }),
-        ("dup", if q { 500 } else { 10_000 }),
-        ("dynamic", if q { 6_000 } else { 120_000 }),
+        ("er", if q { 8_000 } else { 120_000 }),
+        ("lattice", if q { 6_000 } else { 90_000 }),
+        ("dense", if q { 2_000 } else { 30_000 }),
+        ("union", if q { 2_400 } else { 40_000 }),
+        ("dup", if q { 1_000 } else { 15_000 }),
+        ("dynamic", if q { 12_000 } else { 200_000 }),
     ];
     let mut gi = 0u64;
     for (family, count) in schedule {
@@ -533,13 +533,13 @@ pub fn run_c19(ctx: &mut Ctx) {
         ("all2", 16),
         ("all3", 512),
         ("all4", if q { 0 } else { 65_536 }),
-        ("er", if q { 40_000 } else { 600_000 }),
-        ("rings", if q { 2_400 } else { 24_000 }),
-        ("lattice", if q { 20_000 } else { 300_000 }),
-        ("union", if q { 15_000 } else { 200_000 }),
-        ("dup", if q { 10_000 } else { 150_000 }),
-        ("big-conn", if q { 1_500 } else { 20_000 }),
-        ("big-union", if q { 1_000 } else { 15_000 }),
+        ("er", if q { 120_000 } else { 1_500_000 }),
+        ("rings", if q { 4_800 } else { 48_000 }),
+        ("lattice", if q { 60_000 } else { 700_000 }),
+        ("union", if q { 45_000 } else { 500_000 }),
+        ("dup", if q { 30_000 } else { 350_000 }),
+        ("big-conn", if q { 4_500 } else { 50_000 }),
+        ("big-union", if q { 3_000 } else { 35_000 }),
     ];
     let mut gi = 0u64;
     for (family, count) in schedule {
